@@ -49,8 +49,8 @@ CHECKS = {
          "For circuits whose outputs pin down the corrupted party's effective input, every message of the corrupted evaluator/garbler is altered at every field (bit flips, omissions, empty vectors; thorough: full menu), per recipient and consistently; every honest output party must return Err or a value in {f(x_honest, x')}, and all accepted values must be explained by one x'.",
          "single corrupted party, one fault per execution (plus taps); quick uses the reduced mutation menu", "4.C02", "E1+E2"),
  "C07": ("fault_enumeration", "XOR-closure search for the victim's probed key over all bytes on the wire, on honest runs, on every enumerated single alteration that keeps the run going, and on a scripted persistent attacker",
-         "With d the victim's global key: d must not occur at any byte offset (either byte order), no two 128-bit windows and no three decoded 128-bit fields of the pooled traffic (plus what peers hold in the honest run of the same tape) may XOR to d; evaluated on honest runs (NOT gates on inputs, AND outputs, outputs; n=2..4), on every fault of the C02/C04 menu after which the victim keeps sending, and on the check-bit liar with fixed-up reply.",
-         "label census not implemented; one by-design leak of the failing LaAND check is a known finding", "4.C07", "E1+E2"),
+         "With d the victim's global key: d must not occur at any byte offset (either byte order), no two 128-bit windows and no three decoded 128-bit fields of the pooled traffic (plus what peers hold in the honest run of the same tape) may XOR to d; evaluated on honest runs (NOT gates on inputs, AND outputs, outputs; n=2..4; plus the label census: exactly one garbled row per (AND gate, garbler) opens under the evaluator's labels), on every fault of the C02/C04 menu after which the victim keeps sending, and on the check-bit liar with fixed-up reply.",
+         "label census on honest runs only; one by-design leak of the failing LaAND check is a known finding", "4.C07", "E1+E2"),
  "C13": ("model_checking", "explicit-state exploration of event histories on the real PolicyState actors (current-thread tokio, paused clock, owned RPC transport), merged by Mazurkiewicz canonical form",
          "All orders of schedule injections, deliveries and answers of every validate/run/consts RPC and compile completions are enumerated on the real actors for n=2 (every leader, constants from none/one/all, destination subsets) and n=3; at the end of every maximal history every schedule call returned Ok, every destination received exactly the clear-text result once, all state machines stopped without panic and all permits are back.",
          "MPC messages are delivered eagerly FIFO per pair (their positions are part of the canonical form); quiescence = tokio paused-clock idleness plus the guarded compile gate", "4.C13", "E4"),
